@@ -67,6 +67,10 @@ pub trait Check: Sync {
     fn exhaustive(&self, _tier: Tier) -> Vec<Value> {
         vec![]
     }
+    /// what the exhaustive pre-pass enumerates completely (for the evidence file)
+    fn exhaustive_note(&self, _tier: Tier) -> Option<String> {
+        None
+    }
     fn components(&self) -> Value;
     fn assumptions(&self) -> Vec<String>;
     /// wall-clock budget for exploration in seconds
@@ -338,6 +342,8 @@ pub fn orchestrate(check: &dyn Check, opts: &CheckOpts) -> i32 {
         }
     }
 
+    let exhaustive_count = check.exhaustive(opts.tier).len();
+
     // 2. explore in worker processes
     let n = opts.workers.max(1);
     let mut children = vec![];
@@ -564,6 +570,7 @@ pub fn orchestrate(check: &dyn Check, opts: &CheckOpts) -> i32 {
             "components": check.components(),
             "workers": n,
             "exhaustive": false,
+            "exhaustive_part": check.exhaustive_note(opts.tier).map(|n| format!("{n} ({} cases, enumerated completely before the seeded part)", exhaustive_count)),
         },
         "assumptions": check.assumptions(),
     });
